@@ -178,7 +178,7 @@ def run(ctx):
                     arm_ok = (arm_ok or no_compression(ctx, dec)) and c[0] in ("Eq", "Ne")
                 ctx.ob("R-C15.6", dec, "header-relation-%d-%d" % tuple(sorted(pair)), bool(g) and arm_ok,
                        "decoder tests %s between header fields %s: %s" % (c[0], sorted(pair), g[1]) if (g and arm_ok)
-                       else "decoder rejects records based on a relation (%s) between header fields %s that the encoder does not guarantee%s: valid records (e.g. incompressible values whose lz4 output is longer than the input) would be refused and the journal truncated there" % (
+                       else "decoder decides (rejects, or decodes differently) on a relation (%s) between header fields %s that the encoder does not guarantee%s: records the encoder can produce (e.g. incompressible values whose lz4 output is as long as or longer than the input) would be refused or decoded to different bytes" % (
                            c[0], sorted(pair), "" if not g else " in this compression arm"), dec.loc(b))
         ctx.ob("R-C15.6", dec, "header-relations-enumerated", nrel >= 1, "%d header-field relation test(s) found in the decoder, all matched against the encoder's guarantees" % nrel, nontrivial=False)
 
